@@ -21,7 +21,7 @@ PROFILE = {
     "C14": dict(quick=["G1c", "G2b", "G2X", "G2S", "G3", "G4", "G4X"],
                 thorough=["G1c", "G1l", "G1h", "G2a", "G2b", "G2c", "G2d", "G2e", "G2X", "G2S", "G3", "G4", "G4X"],
                 rand=(160, 8000), mode="C14"),
-    "C20": dict(quick=["H1q", "H2"], thorough=["H1", "H2"], rand=(160, 6000), mode="C20"),
+    "C20": dict(quick=["H1q", "H2", "H3"], thorough=["H1", "H2", "H3"], rand=(160, 6000), mode="C20"),
 }
 # which comparisons decide which property
 CMPS = {
